@@ -34,8 +34,10 @@ def marker_tests(f):
 
 
 def loop_norms(f):
-    return sorted(set(show_norm(compare_norm(f.switch_cond(b))) for b in f.reachable_blocks()
-                      if f.term(b)["k"] == "switch" and compare_norm(f.switch_cond(b))))
+    """normal forms of every comparison the function branches on, with local names removed (roles / expansions)"""
+    import re
+    return sorted(set(re.sub(r"(%[^#\s\])]+)#\d+", r"\1", show_norm(compare_norm(f.denamed(f.switch_cond(b))))) for b in f.reachable_blocks()
+                      if f.term(b)["k"] == "switch" and compare_norm(f.denamed(f.switch_cond(b)))))
 
 
 def run(ctx):
@@ -129,21 +131,10 @@ def run(ctx):
           "every loop-control comparison of traverse_path (byte index vs first non-zero byte, bit mask vs msb mask, mask wrap at 0x80, empty path) appears identically in traverse_path_with_vec",
           detail={"traverse_path": b_, "missing in traverse_path_with_vec": missing})
     extra = [x for x in a if x not in b_]
-    ck.ob("R18c", "extra comparisons", extra == ["+arg_index ==0"], "the vector walker adds only the end-of-stack test", detail=extra)
-    # direction: bit set -> right / keep walking the vector
-    sel = []
-    for bb in tpv.reachable_blocks():
-        if tpv.term(bb)["k"] == "switch":
-            e = strip(tpv.expr_op(tpv.term(bb)["on"], deep=False))
-            if e[0] in ("var", "named") and tpv.local_name(e[2]) == "is_bit_set":
-                be = tpv.bool_edges(bb)
-                for edge, nm in ((be[0], "set"), (be[1], "clear")):
-                    for st in tpv.stmts(edge):
-                        if "rv" in st:
-                            v = show(tpv.expr_rvalue(st["rv"], deep=False))
-                            if v in ("left", "right"):
-                                sel.append((nm, v))
-    ck.ob("R18c", "direction", sorted(sel) == [("clear", "left"), ("set", "right")], "in tree mode a set bit selects the right child", detail=sel)
+    ck.ob("R18c", "extra comparisons", extra == ["+%usize ==0"], "the vector walker adds only the end-of-stack test", detail=extra)
+    # direction: bit set -> right / keep walking the vector (from expressions, not names)
+    sel = tpv.bit_direction()
+    ck.ob("R18c", "direction", sel == [("clear", "left"), ("set", "right")], "in tree mode a set bit selects the right child", detail=sel)
 
     # ---------------------------------------------------------------- R18d
     mt_p = marker_tests(probe)
